@@ -32,6 +32,7 @@ namespace {
 }
 
 [[nodiscard]] ReferenceType DeduceRefType(const std::vector<std::string_view>& tokens) noexcept {
+  static constexpr auto maxOffsetLength = 6U; // sign and digits of int16_t offset
   if (size(tokens) < EntityRef::fieldCount || size(tokens) > EntityRef::fieldCount + 2) {
     return ReferenceType::invalid;
   }
@@ -42,7 +43,7 @@ namespace {
   const auto& firstSymbol = firstToken.at(0);
   if (isalpha(firstSymbol)) {
     return ReferenceType::entity;
-  } else if (IsInteger(firstToken) && size(tokens) == CollaborationRef::fieldCount) {
+  } else if (IsInteger(firstToken) && size(firstToken) <= maxOffsetLength && size(tokens) == CollaborationRef::fieldCount) {
     return ReferenceType::collaboration;
   }
   return ReferenceType::invalid;
